@@ -716,8 +716,10 @@ func (s *Service) Shutdown() error {
 	// Wait for all workers to be done
 	s.wg.Wait()
 
+	s.mu.Lock()
 	s.inCh = nil
 	s.nc = nil
+	s.mu.Unlock()
 
 	atomic.StoreInt32(&s.state, stateStopped)
 
@@ -1078,18 +1080,35 @@ func (s *Service) event(subj string, data interface{}) {
 	payload, err := json.Marshal(data)
 	if err == nil {
 		s.tracef("<-- %s: %s", subj, payload)
-		err = s.nc.Publish(subj, payload)
+		nc := s.conn()
+		if nc == nil {
+			err = errNotStarted
+		} else {
+			err = nc.Publish(subj, payload)
+		}
 	}
 	if err != nil {
 		s.errorf("Error sending event %s: %s", subj, err)
 	}
 }
 
+// conn returns the connection, or nil if the service is stopped. Unlike the nc
+// field, it may be used from any goroutine while Shutdown is called.
+func (s *Service) conn() Conn {
+	s.mu.Lock()
+	nc := s.nc
+	s.mu.Unlock()
+	return nc
+}
+
 // rawEvent publishes the payload on a subject, and logs it as an outgoing
 // event.
 func (s *Service) rawEvent(subj string, payload []byte) {
 	s.tracef("<-- %s: %s", subj, payload)
-	err := s.nc.Publish(subj, payload)
+	err := errNotStarted
+	if nc := s.conn(); nc != nil {
+		err = nc.Publish(subj, payload)
+	}
 	if err != nil {
 		s.errorf("Error sending event %s: %s", subj, err)
 	}
